@@ -10,10 +10,10 @@ PROPS = {
         coq_targets=["Props/C17.vo"],
         harness=[dict(pkg="h_prims", bin="c17", cases={"quick": 400, "thorough": 6000},
                       extra={"quick": {"depth": 4}, "thorough": {"depth": 6}},
-                      checkers=["corr", "oracle"])],
+                      checkers=["corr", "oracle", "corr_wake", "oracle_wake"])],
         allowed_axioms=[],
         trusted_base=[
-            "interleaving semantics over one atomic location (single modification order of `flags`); AtomicWaker hand-off trusted",
+            "interleaving semantics over one atomic location (single modification order of `flags`); futures::task::AtomicWaker is modelled as a slot holding at most one waker with atomic register / wake (its internal REGISTERING / WAKING protocol is trusted)",
             "hook: swimos_runtime feature `verif` re-exports timeout_coord::{Voter, Receiver, ...}",
         ],
         assumptions=[
@@ -214,9 +214,11 @@ PROPS = {
         ],
     ),
     "C03": dict(
-        coq_targets=["Props/C03.vo"],
+        coq_targets=["Props/C03.vo", "Model/MapLane.vo"],
         harness=[dict(pkg="h_agent", bin="c04", cases={"quick": 300, "thorough": 5000},
-                      checkers=["corr", "oracle"], timeout=2400)],
+                      checkers=["corr", "oracle"], timeout=2400),
+                 dict(pkg="h_agent", bin="c02l", cases={"quick": 400, "thorough": 4000},
+                      checkers=["corr", "oracle"], timeout=1800)],
         allowed_axioms=[],
         trusted_base=[
             "lanes and remotes are numbers; value / supply bodies are byte strings (possibly empty), map events are entries of the C02 queue model rendered as Recon on the wire and parsed back by the harness; Links is abstracted to the set of (lane, remote) pairs (its bookkeeping is C20's subject)",
